@@ -3,7 +3,7 @@
    site present in the current source, gen/PipeGen.v) and EVERY point at which the reader
    closes standard output, the run ends with status 0 or 1 and never with a panic.
    (The directory-fault part is stated over model/Walk.v in proofs/Walk*.v.) *)
-From Coq Require Import List NArith Bool.
+From Coq Require Import List NArith Bool Permutation.
 From FS Require Import lib.Str lib.Res gen.PipeGen model.Assemble.
 Import ListNotations.
 Open Scope N_scope.
@@ -31,7 +31,7 @@ Example C17_source_kinds : source_kinds = [Guarded; Ignored].
 Proof. reflexivity. Qed.
 
 (* ---- directory faults ---- *)
-From FS Require Import model.Walk spec.WalkSpec proofs.WalkBase proofs.WalkRoots proofs.WalkCor.
+From FS Require Import model.Walk spec.WalkSpec proofs.WalkBase proofs.WalkRoots proofs.WalkCor proofs.WalkCorBfs.
 
 (* making any set `bad` of directories unlistable removes exactly the rows of the entries below them
    (`reachable`: no ancestor is unlistable) and adds exactly one error per unlistable directory the
@@ -50,6 +50,23 @@ Theorem C17_isolation : forall accept buffered o bad fuel F nm i g kk p c s0,
                          | _ => [] end) surviving.
 Proof. exact C17_dfs. Qed.
 
+(* the same in breadth-first mode (the binary's default): the surviving rows in level order *)
+Theorem C17_isolation_bfs : forall accept buffered o bad fuel F nm i g kk p c s0,
+  o_dfs o = false ->
+  (nodes (NDir nm i g true kk) <= fuel)%nat -> (height (NDir nm i g true kk) <= F)%nat ->
+  canon_ok c -> names_ok kk -> NoDup (i :: inodes_of kk) ->
+  (forall x, In x (vis s0) -> ~ In x (i :: inodes_of kk)) ->
+  let surviving := map snd (filter (reachable bad) (flat_map (preA (o_max o) (o_ign o) F 1 p []) kk)) in
+  exists s1 new newerrs,
+    walk_root accept buffered 0 o fuel p c (NDir nm i g true (map (blind bad) kk)) s0 = Some s1 /\
+    out s1 = out s0 ++ new /\ errs s1 = errs s0 ++ newerrs /\
+    Permutation new (spec_rows accept (o_arc o) (o_min o) (o_max o) surviving) /\
+    Permutation newerrs
+      (flat_map (fun e => match e_node e with
+                          | NDir _ j _ l _ => if (negb l || bad j) && ((o_max o =? 0) || (e_depth e <? o_max o)) then [e_path e] else []
+                          | _ => [] end) surviving).
+Proof. exact C17_bfs. Qed.
+
 (* errors of several roots add up; a root that is not a listable directory costs one error and no row *)
 Theorem C17_roots_errors : forall accept buffered fuel F roots, roots_ok fuel F roots ->
   exists s1, walk_roots accept buffered 0 fuel roots st0 = Some s1 /\
@@ -58,6 +75,7 @@ Theorem C17_roots_errors : forall accept buffered fuel F roots, roots_ok fuel F 
 Proof. exact T3_roots_st0. Qed.
 
 Print Assumptions C17_isolation.
+Print Assumptions C17_isolation_bfs.
 Print Assumptions C17_roots_errors.
 Print Assumptions C17_pipe_never_panics.
 Print Assumptions C17_clean_status.
